@@ -135,7 +135,8 @@ def task(t):
                 # the interface converts array-likes itself (torch.as_tensor): the contract is the same for
                 # a tensor, a numpy array and a nested list
                 if ctx is not None:
-                    ck = (r1 + rows + seed) % 3
+                    # (an empty nested list has lost its width: an empty context goes as a tensor or an array)
+                    ck = (r1 + rows + seed) % (2 if empty else 3)
                     ctx = ctx if ck == 0 else ctx.numpy() if ck == 1 else ctx.tolist()
                     case["context_as"] = ("tensor", "numpy", "list")[ck]
                 kind, r = outcome(lambda: m.log_prob(x, context=ctx) if ctx is not None else m.log_prob(x))
